@@ -106,11 +106,11 @@ def fd_target(pid, fd):
         return None
 
 
-def run_driver(casedir, tag, argv, plan, batch, timeout=60, on_poll=None):
+def run_driver(casedir, tag, argv, plan, batch, timeout=60, on_poll=None, stdout_file=None):
     """returns dict(rc, result, events, timed_out, diag, wall)"""
     logdir = os.path.join(casedir, f"log-{tag}")
     os.makedirs(logdir, exist_ok=True)
-    spec = {"argv": argv, "plan": plan, "logdir": logdir}
+    spec = {"argv": argv, "plan": plan, "logdir": logdir, "stdout_file": stdout_file}
     sp = os.path.join(casedir, f"{tag}.spec.json")
     rp = os.path.join(casedir, f"{tag}.result.json")
     with open(sp, "w") as f:
